@@ -75,6 +75,8 @@ func sortFromName(n string) Sort {
 		return "(Array Int String)"
 	case "IntArr":
 		return "(Array Int Int)"
+	case "StrHeap":
+		return "(Array Int (Array Int String))"
 	}
 	return n
 }
@@ -659,6 +661,16 @@ func (e *enc) trCall(n *ECall, env *Env) Val {
 		e.regState("frontier", "Int")
 		v := e.tr(n.Args[0], env)
 		return Val{T: "(>= " + v.T + " " + e.getIn(env.old, "frontier") + ")", S: "Bool"}
+	case "byteAt":
+		a := e.trArgs(n.Args, env)
+		if len(a) == 2 {
+			return Val{T: "(byteAt " + a[0].T + " " + a[1].T + ")", S: "Int"}
+		}
+	case "strheap":
+		// strheap(): the whole memory of string elements (contents of every []string) in the current state, as a value;
+		// lets a trusted contract say "a function of the slice's contents" without sequences
+		nm := e.stateVarByName("Mem.String")
+		return Val{T: e.getIn(env.cur, nm), S: "(Array Int (Array Int String))"}
 	case "allocated":
 		e.regState("frontier", "Int")
 		v := e.tr(n.Args[0], env)
